@@ -226,6 +226,14 @@ def F24(_fil):
     return type(h.foff).__name__ != "float", f"from_pfits foff is {type(h.foff).__name__}, fch1 is {type(h.fch1).__name__}"
 
 
+def F26(fil):
+    ts = fil.read_chan(3, **Q)
+    names = fil.extract_chans([5], outfile_base="f26", **Q)
+    t2 = TimeSeries.from_tim(names[0])
+    want = (fil.header.fch1 + 3 * fil.header.foff, fil.header.fch1 + 5 * fil.header.foff)
+    return (ts.header.fch1, t2.header.fch1) != want, f"read_chan(3).fch1={ts.header.fch1} extract_chans([5]).fch1={t2.header.fch1}, channel labels {want}"
+
+
 ALL = {k: v for k, v in globals().items() if k.startswith("F") and k[1:].isdigit()}
 
 
